@@ -249,8 +249,10 @@ fn do_op(cx: &mut Cx, op: &str) {
             let (f_obs, _) = find_obs(&cx.store, &id);
             let h_obs = header_obs(&cx.store, &id);
             let _ = std::fs::remove_file(&p);
+            cx.rep.oracle_checked();
             if f_obs == "panic" || h_obs == "panic" {
-                cx.rep.outside_domain(&format!("{}: find={f_obs} header={h_obs} (a malformed file, not a truncated one)", &op[..op.len().min(120)]));
+                // `find_never_panics`: whatever the file holds, the answer is Ok or Err
+                cx.rep.oracle_failure(&op[..op.len().min(300)], &format!("a loose object file made try_find / try_header panic: find={f_obs} header={h_obs}"), op);
             }
             cx.rep.bucket(&format!("find:{}", f_obs.split(':').next().unwrap_or("")));
             if with_header {
@@ -484,9 +486,12 @@ fn main() {
         };
         let body = gen_bytes(r.below(3) as u8, r.u64(), n);
         let kind = parse_kind(*r.pick(&["blob", "tree", "commit", "tag"])).unwrap();
-        let variant = r.below(12);
-        let honest = variant > 5;
+        let variant = r.below(13);
+        let honest = variant > 5 && variant != 12;
         let mut raw = match variant {
+            // sizes that overflow `size + header_size`, the buffer length, or `isize::MAX` (nothing in between: a
+            // header of a few GiB would really be allocated)
+            12 => format!("{} {}\0", kind, r.pick(&["9223372036854775807", "9223372036854775808", "18446744073709551600", "18446744073709551615", "18446744073709551616"])).into_bytes(),
             0 => format!("{} {}\0", kind, n + 1 + r.usize(5)).into_bytes(), // header promises more
             1 if n > 0 => format!("{} {}\0", kind, r.usize(n)).into_bytes(), // header promises less
             2 => format!("{} +{}\0", kind, n).into_bytes(),
@@ -517,6 +522,22 @@ fn main() {
             _ => {}
         }
         do_op(&mut cx, &format!("{opname} {}", hex(&z)));
+    }
+    {
+        // a VALID stream that spends its first 200 bytes on empty stored blocks: try_find works, try_header cannot
+        let mut z = vec![0x78u8, 0x01];
+        for _ in 0..40 {
+            z.extend_from_slice(&[0, 0, 0, 0xff, 0xff]);
+        }
+        z.extend_from_slice(&[1, 10, 0, 245, 255, 98, 108, 111, 98, 32, 51, 0, 97, 98, 99, 17, 217, 3, 25]);
+        do_op(&mut cx, &format!("find {}", hex(&z)));
+        cx.rep.outside_domain("a valid zlib stream whose first 192 bytes hold no content (40 empty stored blocks): try_find reads it, try_header fails (see Props.C11.try_header_needs_early_output)");
+        // headers that advertise less / more than is there, around the 64-byte header buffer
+        for (claimed, actual) in [(3usize, 100usize), (0, 58), (56, 57), (57, 58), (10, 64), (100, 3), (58, 57), (1000, 100)] {
+            let mut raw = format!("blob {claimed}\0").into_bytes();
+            raw.extend(std::iter::repeat(b'x').take(actual));
+            do_op(&mut cx, &format!("find {}", hex(&zlib_level(&raw, 0))));
+        }
     }
     for op in ["find -", "find 78", "find 7801", "find 0000", "find 780101"] {
         do_op(&mut cx, op);
